@@ -125,6 +125,7 @@ def run(ck):
     for s in [".", "nonexistent", "/", "../" + os.path.basename(scratch)]: lines.append("canon " + hx(s))
     lines += ["curpath", "tmppath", "mktemp " + hx("zixtmpXXXXXX"), "mkdirs " + hx("m/n/o"), "mkdirs " + hx("m/n/o"), "mkdirs " + hx("p/./q/../r/")]
     for size in ["1", "8", "1000", "100000"]: lines.append("ring " + size)
+    for size in ["0", "80000001", "ffffffff", "c0000000"]: lines.append("ringbad " + size)     # sizes (hex) the constructor must refuse
     sp = ck.write_script("c07.script", lines)
     rc, out, err = ck.run_impl(exe, sp, [scratch])
     ck.cov["evaluations"] += len(lines)
